@@ -8,6 +8,7 @@ from __future__ import annotations
 
 import enum
 import json
+import math
 import random
 import types
 import typing
@@ -20,15 +21,23 @@ TECHNIQUE = "runtime monitoring: type-driven round trip through the real rpc/RES
 RULE = ("all MessageBase subclasses found by reflection in aggregator_messages, engine_messages and messages; field values "
         "generated from the pydantic annotations (int incl. |v| > 2^64, finite float incl. -0.0/5e-324/1.79e308, str incl. "
         "'', non-BMP, NUL, quotes, backslashes, JSON look-alikes, bool, None, enums, Literal, constrained ints, list/set/dict "
-        "of 0-4 elements, nested models to depth 4, every member of a union); path A: serialize -> RpcMessage(request="
+        "of 0-4 elements, nested models to depth 4, every member of a union; additionally +inf/-inf/nan in every float "
+        "position that is not a dict key, ints given to float fields, enum members given by value, strings of 5k-20k "
+        "characters); path A: serialize -> RpcMessage(request="
         "RpcRequest(arguments={'message_json': ...})).model_dump_json() -> json.loads -> RpcMessage.model_validate -> "
         "deserialize; path B (classes of namespace messages): json.dumps(serialize(m)) inside RpcResponse.result; path C "
-        "(RegisterEngineMsg / RegisterEngineReplyMsg): HTTP POST to the real AggregatorDispatcher route via TestClient. "
+        "(RegisterEngineMsg / RegisterEngineReplyMsg): HTTP POST to the real AggregatorDispatcher route via TestClient; "
+        "path D (every class): deserialize(json.loads(json.dumps(serialize(m)))) - the plain JSON text hop both "
+        "dispatchers apply to rpc results. Equality treats nan as equal to nan. "
         "Malformed envelopes: every attribute name of the three namespaces as _type (enumerated), missing/unknown/"
         "non-string _type and _ns, non-dict envelopes, wrong field types. distinct = (class, set of generated union "
         "branches / container sizes); non-trivial = the instance has a non-default field value")
 ASSUMPTIONS = [
-    "finite floats only (JSON has no inf/NaN); strings are valid Unicode (no lone surrogates)",
+    "strings are valid Unicode (no lone surrogates)",
+    "non-finite floats are generated for float values, not for float dict keys (a numeric dict key is already lost, "
+    "C26.non_string_dict_keys); Python's json spelling Infinity/-Infinity/NaN counts as JSON because that is what the "
+    "dispatchers write and read",
+    "equality is nan-aware only when the sent message holds a nan: same classes and field-wise equal with nan == nan",
     "equality is pydantic's model __eq__ (same class and equal field values); changes of a field value's Python type "
     "that keep == (1 vs 1.0) are only counted",
     "an attribute name that resolves to a MessageBase subclass re-exported in another namespace (e.g. aggregator_messages."
@@ -38,15 +47,22 @@ ASSUMPTIONS = [
     "a field annotation the generator does not understand crashes the shard (INCONCLUSIVE) instead of being skipped",
 ]
 REQUIRED = {"message_classes": 20, "rpc_round_trips": 3000, "rest_round_trips": 20, "reply_path_round_trips": 200,
-            "malformed_envelopes": 500, "namespace_attribute_names_tried": 100}
+            "malformed_envelopes": 500, "namespace_attribute_names_tried": 100, "json_text_round_trips": 3000,
+            "nonfinite_in_nullable_float_field_json_text_judged": 25,
+            "nonfinite_in_required_float_field_json_text_judged": 60,
+            "nonfinite_in_nullable_float_field_rpc_request_judged": 25,
+            "nonfinite_in_required_float_field_rpc_request_judged": 60,
+            "nan_round_trips_judged": 30, "very_long_string_round_trips": 10}
 EXHAUSTIVE_ALL = False
 
 STRINGS = ["", "a", "Mark: A", "x y", "\u00e9", "\u4e2d\u6587", "\U0001F600", "a\nb", "\t", "\x00", "\"quoted\"", "back\\slash",
            "null", "true", "1", "1.0", "{}", "[1]", "_type", "\u00b5S/cm", "\u00b0C", " ", "\xa0", "\u2028", "\x7f", "'", "\ufeff",
-           "\U0001F468\u200d\U0001F469"]
+           "\U0001F468\u200d\U0001F469", "NaN", "Infinity", "-Infinity", "nan", "inf", "false", "None", "1e5", "-0", "0x10", "[]",
+           "\"\"", "\ud7ff\ue000\uffff", "\U0010ffff"]
 INTS = [0, 1, -1, 2, 7, 255, -2 ** 31, 2 ** 31, 2 ** 53, 2 ** 53 + 1, -(2 ** 53) - 1, 2 ** 63 - 1, -2 ** 63, 2 ** 64, 10 ** 30, -10 ** 25]
 FLOATS = [0.0, -0.0, 1.0, -1.0, 0.1, 0.30000000000000004, 1e-7, 1.5, 2.5, 1e16, 1e22, 123456789.123456789, 5e-324, 2.2250738585072014e-308,
           1.7976931348623157e308, -1.7976931348623157e308, 3.141592653589793, 1e-320, 100.0, 1700000000.123]
+NONFINITE = [float("inf"), float("-inf"), float("nan")]
 
 
 def message_classes():
@@ -69,10 +85,15 @@ class Gen:
         self.rnd = rnd
         self.trace: list[str] = []          # which union branches / sizes were taken (for distinct-case counting)
         self.nondefault = False
+        self.nonfinite: set[str] = set()    # "nullable" / "required": kind of float position that got inf/-inf/nan
+        self.long_string = False
 
     def string(self):
         r = self.rnd
         x = r.random()
+        if x < 0.004:
+            self.long_string = True
+            return "".join(r.choice(STRINGS) or "\u4e2d" for _ in range(r.randint(5000, 20000)))[:20000]
         if x < 0.6:
             return r.choice(STRINGS)
         if x < 0.9:
@@ -87,25 +108,31 @@ class Gen:
                 return v
         return lo if lo is not None else 0
 
-    def floating(self):
+    def floating(self, finite_only=False):
         r = self.rnd
-        if r.random() < 0.6:
+        x = r.random()
+        if x < 0.12:
+            return r.choice(FLOATS) if finite_only else r.choice(NONFINITE)
+        if x < 0.16:
+            return r.choice(INTS)                     # an int where a float is declared
+        if x < 0.6:
             return r.choice(FLOATS)
         return r.uniform(-1e6, 1e6) * 10 ** r.randint(-8, 8)
 
-    def value(self, ann, depth=0, metadata=()):
+    def value(self, ann, depth=0, metadata=(), nullable=False, key=False):
+        """nullable: None is admitted at this position (an enclosing union has a None member); key: a dict key"""
         r = self.rnd
         origin = typing.get_origin(ann)
         if ann is typing.Any:
-            return self.value(r.choice((int, str, float, bool, type(None))), depth)
+            return self.value(r.choice((int, str, float, bool, type(None))), depth, nullable=True, key=key)
         if origin is typing.Annotated:
             base, *meta = typing.get_args(ann)
-            return self.value(base, depth, tuple(meta) + tuple(metadata))
+            return self.value(base, depth, tuple(meta) + tuple(metadata), nullable, key)
         if origin in (typing.Union, types.UnionType):
             args = typing.get_args(ann)
             pick = r.choice(args)
             self.trace.append(f"U{args.index(pick)}")
-            return self.value(pick, depth, metadata)
+            return self.value(pick, depth, metadata, nullable or type(None) in args, key)
         if origin is typing.Literal:
             return r.choice(typing.get_args(ann))
         if origin in (list, typing.List, typing.Sequence) or ann is list:
@@ -119,7 +146,7 @@ class Gen:
         if origin is dict or ann is dict:
             kt, vt = typing.get_args(ann) or (str, typing.Any)
             n = self._size(depth)
-            return {self.value(kt, depth + 1): self.value(vt, depth + 1) for _ in range(n)}
+            return {self.value(kt, depth + 1, key=True): self.value(vt, depth + 1) for _ in range(n)}
         if ann is type(None):
             return None
         if ann is bool:
@@ -140,11 +167,15 @@ class Gen:
                             hi = v - 1
             return self.integer(lo, hi)
         if ann is float:
-            return self.floating()
+            v = self.floating(finite_only=key)
+            if isinstance(v, float) and not math.isfinite(v):
+                self.nonfinite.add("nullable" if nullable else "required")
+            return v
         if ann is str:
             return self.string()
         if isinstance(ann, type) and issubclass(ann, enum.Enum):
-            return r.choice(list(ann))
+            member = r.choice(list(ann))
+            return member.value if r.random() < 0.25 else member      # pydantic accepts an enum by value
         if isinstance(ann, type) and hasattr(ann, "model_fields"):
             return self.model(ann, depth + 1)
         raise TypeError(f"C26 generator: unsupported annotation {ann!r}")
@@ -184,6 +215,14 @@ def rpc_reply_path(msg):
     wire = RpcMessage(response=RpcResponse(result=result, result_type="str", call_id="c1")).model_dump_json()
     parsed = RpcMessage.model_validate(json.loads(wire))
     return deserialize(json.loads(parsed.response.result))
+
+
+def json_text_path(msg, encode_only=False):
+    """the plain JSON text hop: what both dispatchers do with an rpc result (json.dumps(serialize(m)) on one side,
+    deserialize(json.loads(text)) on the other), applied to every message class"""
+    from openpectus.protocol.serialization import serialize, deserialize
+    text = json.dumps(serialize(msg))
+    return text if encode_only else deserialize(json.loads(text))
 
 
 class RestRig:
@@ -279,6 +318,59 @@ def _norm_sets(obj):
     return obj
 
 
+def _is_nonfinite(x) -> bool:
+    return isinstance(x, float) and not math.isfinite(x)
+
+
+def _contains(obj, pred) -> bool:
+    """pred holds for some value (not dict key) inside a dumped structure"""
+    if isinstance(obj, dict):
+        return any(_contains(v, pred) for v in obj.values())
+    if isinstance(obj, (list, tuple, set, frozenset)):
+        return any(_contains(x, pred) for x in obj)
+    return pred(obj)
+
+
+def _eq_nan(a, b) -> bool:
+    """== on dumped structures, except that nan equals nan"""
+    if isinstance(a, float) and isinstance(b, float) and math.isnan(a) and math.isnan(b):
+        return True
+    if isinstance(a, dict) and isinstance(b, dict):
+        return a.keys() == b.keys() and all(_eq_nan(v, b[k]) for k, v in a.items())
+    if isinstance(a, (list, tuple)) and isinstance(b, (list, tuple)):
+        return len(a) == len(b) and all(_eq_nan(x, y) for x, y in zip(a, b))
+    return a == b
+
+
+def same_message(a, b) -> bool:
+    """pydantic's model equality (same class, equal field values) with nan == nan"""
+    from pydantic import BaseModel
+    if isinstance(a, BaseModel) or isinstance(b, BaseModel):
+        return type(a) is type(b) and all(same_message(getattr(a, f), getattr(b, f)) for f in type(a).model_fields)
+    if isinstance(a, float) and isinstance(b, float) and math.isnan(a) and math.isnan(b):
+        return True
+    if isinstance(a, dict) and isinstance(b, dict):
+        return a.keys() == b.keys() and all(same_message(v, b[k]) for k, v in a.items())
+    if isinstance(a, (list, tuple)) and isinstance(b, (list, tuple)):
+        return len(a) == len(b) and all(same_message(x, y) for x, y in zip(a, b))
+    return a == b
+
+
+def _null_nonfinite(obj):
+    """what a JSON writer without inf/nan support (pydantic: ser_json_inf_nan='null') does to the values of a dumped
+    structure; dict keys are left alone"""
+    if isinstance(obj, dict):
+        return {k: _null_nonfinite(v) for k, v in obj.items()}
+    if isinstance(obj, (list, tuple)):
+        return [_null_nonfinite(x) for x in obj]
+    if isinstance(obj, (set, frozenset)):
+        return {_null_nonfinite(x) for x in obj}
+    return None if _is_nonfinite(obj) else obj
+
+
+NF_MECH = "C26.non_finite_float_nulled_by_rpc_request_envelope"
+
+
 def classify_mismatch(orig, back):
     """narrow causal shape of a round-trip difference"""
     try:
@@ -286,7 +378,7 @@ def classify_mismatch(orig, back):
     except Exception:  # noqa: BLE001
         return None
     if type(orig) is type(back) and _has_nonstring_key(d0) and not _has_nonstring_key(d1):
-        if _norm_sets(_stringify_nonstring_keys(d0, d1)) == _norm_sets(d1):
+        if _eq_nan(_norm_sets(_stringify_nonstring_keys(d0, d1)), _norm_sets(d1)):
             # the ONLY difference: int/float dict keys came back as their JSON object-key strings
             return "C26.non_string_dict_keys"
     return None
@@ -302,12 +394,32 @@ def deep_types(obj):
     return type(obj).__name__
 
 
+def nulled_reference(path: str, orig):
+    """Only for the rpc request envelope and only when the real serialize(orig) still holds a non-finite float value (so
+    a loss cannot have happened in serialize): what the real deserialize makes of serialize(orig) with exactly those
+    values replaced by null - ("msg", message) or ("exc", text of the ProtocolDeserializationException)"""
+    from openpectus.protocol.serialization import serialize, deserialize
+    from openpectus.protocol.exceptions import ProtocolDeserializationException
+    if path != "rpc-request":
+        return None
+    try:
+        ser = serialize(orig)
+        if not _contains(ser, _is_nonfinite):
+            return None
+        return "msg", deserialize(_null_nonfinite(ser))
+    except ProtocolDeserializationException as ex:
+        return "exc", str(ex)
+    except Exception:  # noqa: BLE001
+        return None
+
+
 def judge(path: str, orig, back_call, res: Result, case):
     from openpectus.protocol.exceptions import ProtocolDeserializationException
+    ref = nulled_reference(path, orig)
     try:
         back = back_call()
     except ProtocolDeserializationException as ex:
-        mech = None
+        mech = NF_MECH if ref is not None and ref[0] == "exc" and ref[1] == str(ex) else None
         try:
             if _has_nonstring_key(orig.model_dump()):
                 res.count("rejected_after_key_stringification")
@@ -322,9 +434,21 @@ def judge(path: str, orig, back_call, res: Result, case):
         res.violation(None, f"[{path}] sent {type(orig).__module__}.{type(orig).__qualname__}, received "
                             f"{type(back).__module__}.{type(back).__qualname__}", case)
         return
-    if back != orig:
-        mech = classify_mismatch(orig, back)
+    if back != orig and not (_contains(orig.model_dump(), lambda x: isinstance(x, float) and math.isnan(x))
+                             and same_message(orig, back)):
         diff = _first_diff(orig.model_dump(), back.model_dump())
+        if ref is not None and ref[0] == "msg" and type(ref[1]) is type(orig):
+            # the message with exactly its non-finite float values nulled explains what was received, alone or together
+            # with the (independent) stringification of numeric dict keys
+            if same_message(ref[1], back):
+                res.violation(NF_MECH, f"[{path}] {type(orig).__name__} changed in transit at {diff}", case)
+                return
+            if classify_mismatch(ref[1], back) == "C26.non_string_dict_keys":
+                res.violation(NF_MECH, f"[{path}] {type(orig).__name__} changed in transit at {diff}", case)
+                res.violation("C26.non_string_dict_keys", f"[{path}] {type(orig).__name__} changed in transit (beside "
+                              f"nulled non-finite floats) at {_first_diff(ref[1].model_dump(), back.model_dump())}", case)
+                return
+        mech = classify_mismatch(orig, back)
         res.violation(mech, f"[{path}] {type(orig).__name__} changed in transit at {diff}", case)
         return
     if deep_types(orig.model_dump()) != deep_types(back.model_dump()):
@@ -332,6 +456,8 @@ def judge(path: str, orig, back_call, res: Result, case):
 
 
 def _first_diff(a, b, path="$"):
+    if isinstance(a, float) and isinstance(b, float) and math.isnan(a) and math.isnan(b):
+        return None
     if type(a) is not type(b) and not (isinstance(a, (int, float)) and isinstance(b, (int, float))):
         return f"{path}: {a!r} ({type(a).__name__}) -> {b!r} ({type(b).__name__})"[:300]
     if isinstance(a, dict):
@@ -497,6 +623,28 @@ def run_shard(spec):
             if cls in reply_classes:
                 res.count("reply_path_round_trips")
                 judge("rpc-reply", msg, lambda m=msg: rpc_reply_path(m), res, to_case("rpc-reply", msg))
+            kinds = sorted(g.nonfinite) if _contains(msg.model_dump(), _is_nonfinite) else ()
+            for kind in kinds:
+                res.count(f"nonfinite_in_{kind}_float_field_rpc_request_judged")
+            encodable = True
+            try:
+                json_text_path(msg, encode_only=True)
+            except TypeError:
+                # the json module cannot encode this model_dump() (a set): such a message never travels as an rpc
+                # result; the hop itself is not available, so nothing to judge
+                encodable = False
+                res.count("json_text_not_encodable_by_json_module_not_judged")
+            except Exception:  # noqa: BLE001 - judged below
+                pass
+            if encodable:
+                res.count("json_text_round_trips")
+                judge("json-text", msg, lambda m=msg: json_text_path(m), res, to_case("json-text", msg))
+                for kind in kinds:
+                    res.count(f"nonfinite_in_{kind}_float_field_json_text_judged")
+            if _contains(msg.model_dump(), lambda x: isinstance(x, float) and math.isnan(x)):
+                res.count("nan_round_trips_judged")
+            if g.long_string:
+                res.count("very_long_string_round_trips")
             key = (cls.__module__, cls.__qualname__, tuple(g.trace[:12]))
             res.case(key if g.nondefault else None,
                      sample={"class": cls.__qualname__, "python_repr": case["python_repr"][:400]} if g.nondefault else None)
